@@ -122,6 +122,21 @@ def engine_roles(c, flavour, cache=False):
         def expand(self, roles):
             raise RuntimeError("resolver down")
 
+    class AsyncRaisingR:                      # fails while awaited, not at the call
+        async def expand(self, roles):
+            await asyncio.sleep(0)
+            raise RuntimeError("resolver down (awaited)")
+
+    class DefRaisingAwaitableR:               # plain def handing back an awaitable that fails
+        def expand(self, roles):
+            async def later():
+                raise RuntimeError("resolver down (awaitable)")
+            return later()
+
+    class DefCoroutineR:                      # plain def delegating to an async implementation
+        def expand(self, roles):
+            return AsyncR().expand(roles)
+
     class Sink:
         def __init__(self):
             self.payloads = []
@@ -134,7 +149,8 @@ def engine_roles(c, flavour, cache=False):
               "condition": {"hasAny": [{"attr": "subject.roles"}, [r]]}} for i, r in enumerate(universe)]
     pol = {"algorithm": "deny-overrides", "rules": rules}
     sink = Sink()
-    res = {"sync": SyncR, "async": AsyncR, "raising": RaisingR}[flavour]()
+    res = {"sync": SyncR, "async": AsyncR, "raising": RaisingR, "raising-async": AsyncRaisingR,
+           "raising-awaitable": DefRaisingAwaitableR, "def-coroutine": DefCoroutineR}[flavour]()
     kw = {}
     if cache:
         from rbacx.core.cache import DefaultInMemoryCache
@@ -152,7 +168,10 @@ def engine_roles(c, flavour, cache=False):
                 elif rnd == 1 and d.allowed != (r in seen):
                     seen.append("!cached-decision-differs:" + r)
 
-    asyncio.run(go())
+    try:
+        asyncio.run(go())
+    except Exception as e:  # noqa: BLE001  (an evaluation that raises is reported through `seen`)
+        seen.append("!evaluation-raised:" + type(e).__name__)
     audit = [p["env"]["subject"]["roles"] for p in sink.payloads]
     return sorted(seen), audit, universe
 
@@ -182,7 +201,9 @@ def check_cases(chk, cases, replay=False):
         sub = [c for c in cases if c.get("engine")]
     msub = _model_expand(sub)
     for c, m in zip(sub, msub):
-        for flavour, cache in (("sync", False), ("async", False), ("raising", False), ("sync", True), ("async", True)):
+        for flavour, cache in (("sync", False), ("async", False), ("raising", False), ("sync", True), ("async", True),
+                               ("raising-async", False), ("raising-awaitable", False), ("def-coroutine", False),
+                               ("raising-async", True)):
             seen, audit, universe = engine_roles(c, flavour, cache)
             own = list(c["roles"] or [])
             expect = m if not flavour.startswith("raising") else own
